@@ -192,28 +192,8 @@ func checkC09(c CaseC09) error {
 			return vt.FailSig("warning-row-content", "Warnings[%d] (%s row %d): row content %q, but that row is %q", wi, w.File, w.RowNumber, w.RowContent, tb.Rows[w.RowNumber-1])
 		}
 	}
-	// the clean archive must not warn about rows at all
-	for wi, w := range s0.Warnings {
-		if w.RowNumber != 0 {
-			return vt.Failf("well-formed archive: Warnings[%d] reports row %d of %s: %v", wi, w.RowNumber, w.File, w.Kind)
-		}
-	}
-	// a warning about a row must be about one of the inserted rows
-	_, badIdx, _ := c09Apply(clean, c.Bad)
-	for wi, w := range s1.Warnings {
-		if w.RowNumber == 0 {
-			continue
-		}
-		ok := false
-		for _, r := range badIdx[string(w.File)] {
-			if r == w.RowNumber {
-				ok = true
-			}
-		}
-		if !ok {
-			return vt.Failf("Warnings[%d] reports row %d of %s, which is a valid row (rejected rows are %v)", wi, w.RowNumber, w.File, badIdx[string(w.File)])
-		}
-	}
+	// (Warnings about rows that were not rejected are outside the statement: they are only required to describe the row they name,
+	// which the loop above has checked for every warning that carries a row.)
 	return nil
 }
 
